@@ -9,7 +9,6 @@ package main
 
 import (
 	"bufio"
-	"strings"
 	"context"
 	"encoding/json"
 	"fmt"
@@ -17,6 +16,7 @@ import (
 	"os"
 	"reflect"
 	"strconv"
+	"strings"
 	"time"
 
 	"verifharness/enc"
@@ -40,7 +40,7 @@ var bkeys = []string{"k", "j", "t", "?x", "?t", "p!", "q!", "xs"}
 var nodeNames = []string{"n0", "n1", "n2", "error", "ghost"}
 
 func pick(xs []interface{}) interface{} { return enc.DeepCopy(xs[rng.Intn(len(xs))]) }
-func pickS(xs []string) string           { return xs[rng.Intn(len(xs))] }
+func pickS(xs []string) string          { return xs[rng.Intn(len(xs))] }
 
 var patterns = []interface{}{
 	map[string]interface{}{"k": "?x"},
@@ -165,6 +165,16 @@ func genNode(b bias, allowMsgAct bool) *mach.ANode {
 		}
 		if p(b.guard) {
 			br.Guard = genOps(b, true)
+		}
+		if p(0.12) {
+			// a pattern with several candidates and a guard that rejects one of them and accepts another
+			if p(0.5) {
+				br.HasPat, br.Pat = true, map[string]interface{}{"xs": []interface{}{"?e"}}
+				br.Guard = append([]mach.Op{{Name: "nullif", K: "?e", V: float64(1 + rng.Intn(2))}}, genOps(b, true)...)
+			} else {
+				br.HasPat, br.Pat = true, map[string]interface{}{"?p": float64(1)}
+				br.Guard = append([]mach.Op{{Name: "nullif", K: "?p", V: pickS([]string{"a", "b"})}}, genOps(b, true)...)
+			}
 		}
 		if p(0.08) {
 			// a '@var' target whose variable the guard rewrites
@@ -512,7 +522,7 @@ func doWalk(spec *core.Spec, a *mach.ASpec, st *core.State, ms []interface{}, ct
 	if len(props) > 0 {
 		wprops = props[0]
 	}
-	out := O{"outcome": "returned", "strides": T{}, "remaining": T{}, "stopped": "", "bpid": "", "cls": "", "errtext": "", "walked": false}
+	out := O{"outcome": "returned", "strides": T{}, "remaining": T{}, "stopped": "", "bpid": "", "cls": "", "errtext": "", "walked": false, "finalq": false}
 	var w *core.Walked
 	var err error
 	ctx, cancel := ctxFor(a)
@@ -538,6 +548,12 @@ func doWalk(spec *core.Spec, a *mach.ASpec, st *core.State, ms []interface{}, ct
 		w.DoEmitted(func(x interface{}) error { em = append(em, enc.V(x)); return nil })
 		out["doEmitted"] = em
 		out["walkedTo"] = mach.EncState(w.To())
+		// the final state holds a value that would act as a variable when used as a pattern (outside the rule's quantifier)
+		if to := w.To(); to != nil {
+			out["finalq"] = qvals(to.Bs)
+		} else {
+			out["finalq"] = st != nil && qvals(st.Bs)
+		}
 	}
 	return out, w
 }
@@ -638,7 +654,6 @@ func walkCase(id int, kind string, in walkIn, splits bool) O {
 	rec["splits"] = sp
 	return rec
 }
-
 
 func genWalk(id int, kind string, b bias) O {
 	a := genSpec(b, 2+rng.Intn(2), false)
@@ -827,13 +842,13 @@ func max(a, b int) int {
 // ---------------------------------------------------------------- main
 
 var biases = map[string]bias{
-	"step":  {fail: 0.25, perm: 0.15, emit: 0, bad: 0.03, loop: 0.0, native: 0.3, nilbs: 0, guard: 0.35},
-	"frame": {fail: 0.5, perm: 0.15, emit: 0, bad: 0.05, loop: 0.0, native: 0.3, nilbs: 0, guard: 0.4, typed: 0.2},
-	"total": {fail: 0.6, perm: 0.4, emit: 0, bad: 0.1, loop: 0.03, native: 0.4, nilbs: 0.15, guard: 0.5},
+	"step":   {fail: 0.25, perm: 0.15, emit: 0, bad: 0.03, loop: 0.0, native: 0.3, nilbs: 0, guard: 0.35},
+	"frame":  {fail: 0.5, perm: 0.15, emit: 0, bad: 0.05, loop: 0.0, native: 0.3, nilbs: 0, guard: 0.4, typed: 0.2},
+	"total":  {fail: 0.6, perm: 0.4, emit: 0, bad: 0.1, loop: 0.03, native: 0.4, nilbs: 0.15, guard: 0.5},
 	"exotic": {fail: 0.3, perm: 0.2, emit: 0, bad: 0.0, loop: 0.0, native: 0.2, nilbs: 0.05, guard: 0.5, exotic: 0.5},
-	"emit":  {fail: 0.6, perm: 0.05, emit: 0.2, bad: 0.02, loop: 0.02, native: 0.0, nilbs: 0, guard: 0.4},
-	"perm":  {fail: 0.4, perm: 0.8, emit: 0, bad: 0.0, loop: 0.0, native: 0.5, nilbs: 0, guard: 0.5},
-	"walk":  {fail: 0.2, perm: 0.1, emit: 0.1, bad: 0.02, loop: 0.0, native: 0.3, nilbs: 0.02, guard: 0.3},
+	"emit":   {fail: 0.6, perm: 0.05, emit: 0.2, bad: 0.02, loop: 0.02, native: 0.0, nilbs: 0, guard: 0.4},
+	"perm":   {fail: 0.4, perm: 0.8, emit: 0, bad: 0.0, loop: 0.0, native: 0.5, nilbs: 0, guard: 0.5},
+	"walk":   {fail: 0.2, perm: 0.1, emit: 0.1, bad: 0.02, loop: 0.0, native: 0.3, nilbs: 0.02, guard: 0.3},
 }
 
 // the documented fallback when no control is given; lowered from 100 so that chains of
